@@ -149,7 +149,14 @@ def _potential(ix, driver, i, op, res):
             continue
         p, e = guarded(lambda: t.get_potential_prefix(l))
         rows.append({"l": l, "p": p if p else b"", "exc": e})
-    return {"pot": rows}
+    # the token-level meaning of the rule family (Lru!Match) against the real regexes
+    match = []
+    for l in (pool_of(ix, driver)[::3] if i % 6 == 0 else []):
+        for r in ({"k": "domain", "n": 0}, {"k": "subdomain", "n": 0}, {"k": "path", "n": 1}, {"k": "path", "n": 2}):
+            n = impl.real_match_len(r, l)
+            if n is not None:
+                match.append({"l": l, "rule": r, "n": n})
+    return {"pot": rows, "match": match}
 
 
 hook_potential = wrap(_potential)
